@@ -196,6 +196,42 @@ void h_tlwe_rowwise(void) {
 }
 #endif
 
+#ifdef H_FFTMUL
+/* polynomials.cpp: the three FFT-based ring products are  result (=, +=, -=) fft( ifft(poly1) * ifft(poly2) ), with the degree taken from poly1,
+ * three Lagrange temporaries (and one coefficient temporary for += / -=) that are released.  The four transforms / the Lagrange product are
+ * monitors (ASSUMED: C10); what is decided is the wiring. */
+static LagrangeHalfCPolynomial *g_tmp; static TorusPolynomial *g_tmpr; static int n_newl, n_dell, n_newt, n_delt; static int32_t m_N;
+static int s_i1, s_i2, s_mul, s_fft, s_acc; static const void *f_out; static int acc_kind; static const void *acc_res, *acc_src;
+static const IntPolynomial *m_p1; static const TorusPolynomial *m_p2;
+LagrangeHalfCPolynomial *new_LagrangeHalfCPolynomial_array(int32_t nbelts, const int32_t N) { if (nbelts != 3 || N != m_N) bad++; n_newl++; live++; g_tmp = verif_alloc(3 * sizeof(LagrangeHalfCPolynomial)); return g_tmp; }
+void delete_LagrangeHalfCPolynomial_array(int32_t nbelts, LagrangeHalfCPolynomial *obj) { if (nbelts != 3 || obj != g_tmp) bad++; n_dell++; live--; free(obj); }
+TorusPolynomial *new_TorusPolynomial(const int32_t N) { if (N != m_N) bad++; n_newt++; live++; g_tmpr = verif_alloc(sizeof(TorusPolynomial)); return g_tmpr; }
+void delete_TorusPolynomial(TorusPolynomial *obj) { if (obj != g_tmpr) bad++; n_delt++; live--; free(obj); }
+void IntPolynomial_ifft(LagrangeHalfCPolynomial *result, const IntPolynomial *p) { if (result != g_tmp + 0 || p != m_p1) bad++; s_i1 = ++seq; }
+void TorusPolynomial_ifft(LagrangeHalfCPolynomial *result, const TorusPolynomial *p) { if (result != g_tmp + 1 || p != m_p2) bad++; s_i2 = ++seq; }
+void LagrangeHalfCPolynomialMul(LagrangeHalfCPolynomial *result, const LagrangeHalfCPolynomial *a, const LagrangeHalfCPolynomial *b) { if (result != g_tmp + 2 || a != g_tmp + 0 || b != g_tmp + 1 || !s_i1 || !s_i2) bad++; s_mul = ++seq; }
+void TorusPolynomial_fft(TorusPolynomial *result, const LagrangeHalfCPolynomial *p) { if (p != g_tmp + 2 || !s_mul) bad++; f_out = result; s_fft = ++seq; }
+void torusPolynomialAddTo(TorusPolynomial *result, const TorusPolynomial *poly2) { acc_kind = 1; acc_res = result; acc_src = poly2; s_acc = ++seq; }
+void torusPolynomialSubTo(TorusPolynomial *result, const TorusPolynomial *poly2) { acc_kind = 2; acc_res = result; acc_src = poly2; s_acc = ++seq; }
+#include "extracted.inc"
+#define FRESET() do { seq = bad = live = 0; n_newl = n_dell = n_newt = n_delt = 0; s_i1 = s_i2 = s_mul = s_fft = s_acc = 0; acc_kind = 0; f_out = 0; } while (0)
+void h_fftmul(void) {
+    static TorusPolynomial res, p2; IntPolynomial p1; int32_t N; __CPROVER_assume(N >= 1); *(int32_t *)&p1.N = N; m_N = N; m_p1 = &p1; m_p2 = &p2;
+    FRESET(); torusPolynomialMultFFT(&res, &p1, &p2);
+    __CPROVER_assert(bad == 0 && s_i1 && s_i2 && s_mul && s_fft > s_mul && f_out == (const void *)&res && acc_kind == 0, "MultFFT: result = fft(ifft(poly1) * ifft(poly2)), written straight into the result");
+    __CPROVER_assert(n_newl == 1 && n_dell == 1 && n_newt == 0 && live == 0, "MultFFT: the three Lagrange temporaries (degree of poly1) are released");
+    FRESET(); torusPolynomialAddMulRFFT(&res, &p1, &p2);
+    __CPROVER_assert(bad == 0 && s_fft > s_mul && s_mul > 0 && f_out == (const void *)g_tmpr && acc_kind == 1 && acc_res == (const void *)&res && acc_src == (const void *)g_tmpr && s_acc > s_fft,
+                     "AddMulRFFT: the product goes to a temporary, which is then ADDED to the result");
+    __CPROVER_assert(n_newl == 1 && n_dell == 1 && n_newt == 1 && n_delt == 1 && live == 0, "AddMulRFFT: temporaries released");
+    FRESET(); torusPolynomialSubMulRFFT(&res, &p1, &p2);
+    __CPROVER_assert(bad == 0 && s_fft > s_mul && s_mul > 0 && f_out == (const void *)g_tmpr && acc_kind == 2 && acc_res == (const void *)&res && acc_src == (const void *)g_tmpr && s_acc > s_fft,
+                     "SubMulRFFT: the product goes to a temporary, which is then SUBTRACTED from the result");
+    __CPROVER_assert(n_newl == 1 && n_dell == 1 && n_newt == 1 && n_delt == 1 && live == 0, "SubMulRFFT: temporaries released");
+    VERIF_REACH();
+}
+#endif
+
 #ifdef H_CONVERT
 static int n_conv; static const TGswSample *c_src; static TGswSampleFFT *c_dst; static const TLweParams *c_tp;
 void tLweToFFTConvert(TLweSampleFFT *result, const TLweSample *source, const TLweParams *params) { if (result != c_dst->all_samples + n_conv || source != c_src->all_sample + n_conv || params != c_tp) bad++; n_conv++; }
